@@ -325,7 +325,8 @@ class KittyImage(GraphicsImage):
                     except ValueError:  # Version string not "understood"
                         pass
                     else:
-                        if version_tuple >= (0, 20, 0):
+                        # e.g. "0.20" is the same version as "0.20.0"
+                        if version_tuple + (0,) * (3 - len(version_tuple)) >= (0, 20, 0):
                             cls._TERM, cls._TERM_VERSION = name, version
                             cls._KITTY_VERSION = version_tuple
                             cls._supported = True
